@@ -15,8 +15,7 @@
      e_stat      what the file system answers for a path: missing / file / directory, with the
                  canonical path (std::fs::canonicalize; this is where symbolic links live);
      e_layout    the repositories that exist (root, kind);
-     e_run_fails whether checkpoint::run returns Err for a repository (git status refusing a pathspec such as
-                 `../ra/x`, the empty string or a NUL byte — known class C20-K7 — or I/O);
+     e_run_fails whether checkpoint::run returns Err for a repository (git failing, I/O);
      e_allowed   Config::is_allowed_repository;
      e_other     the presets whose decoders are not modelled.
    Git facts used: a path is reported by `git status` of work tree R only if R is the innermost
@@ -585,10 +584,52 @@ Fixpoint raw_prefixb (a : path) (p : rawpath) : bool :=
   | _ :: _, _ => false
   end.
 
-(* the pathspec filter of checkpoint::run keeps a path when it is in the work dir AND can be made relative:
-   given relative, or the written path starts with the work dir, or both canonicalise *)
+(* `strip_prefix` on the path as written: what is left after the work dir *)
+Fixpoint strip_raw (a : path) (p : rawpath) : option rawpath :=
+  match a, p with
+  | [], _ => Some p
+  | x :: a', SName y :: p' => if str_eqb x y then strip_raw a' p' else None
+  | _ :: _, _ => None
+  end.
+
+Fixpoint strip_path (a b : path) : option path :=
+  match a, b with
+  | [], _ => Some b
+  | x :: a', y :: b' => if str_eqb x y then strip_path a' b' else None
+  | _ :: _, [] => None
+  end.
+
+(* is_usable_pathspec: not empty, no NUL byte, never above the work tree root *)
+Fixpoint stays_inside (depth : nat) (p : rawpath) : bool :=
+  match p with
+  | [] => true
+  | SUp :: p' => match depth with O => false | S d => stays_inside d p' end
+  | SName _ :: p' => stays_inside (S depth) p'
+  end.
+
+Definition seg_has_nul (s : seg) : bool := match s with SName c => mem 0 c | SUp => false end.
+
+Definition usable (rest : rawpath) : bool :=
+  match rest with
+  | [] => false
+  | _ :: _ => negb (existsb seg_has_nul rest) && stays_inside O rest
+  end.
+
+(* the pathspec filter of checkpoint::run keeps a path when it is in the work dir AND yields a pathspec git
+   accepts: the path as written relative to the work dir, else the canonical path relative to it.
+   (A relative "." — the work dir itself — is written as a non-empty pathspec; `pieces` drops it, so the
+   model treats it like the empty remainder: the one spelling it does not describe.) *)
 Definition keeps (E : env) (r : repo) (p : rawpath) : bool :=
-  in_wd E r p && (raw_prefixb (workdir r) p || match canon E p with Some _ => true | None => false end).
+  in_wd E r p &&
+  ((match strip_raw (workdir r) p with Some rest => usable rest | None => false end)
+   || match canon E p with
+      | Some q => match strip_path (workdir r) q with
+                  | Some [] => false
+                  | Some (_ :: _) => true
+                  | None => false
+                  end
+      | None => false
+      end).
 
 (* find_repository_for_file *)
 Definition outside (bnd : option path) (d : path) : bool :=
@@ -646,9 +687,9 @@ Fixpoint group_files (find : rawpath -> option repo) (fs : list rawpath) : list 
   end.
 
 (* ================================================================= one checkpoint::run *)
-(* the pathspec filter of checkpoint::run: paths outside the work dir are dropped; when nothing is
-   left the filter becomes None and `git status` scans the whole work tree *)
-Inductive scope := ScopeAll | ScopeFiles (l : list rawpath).
+(* the pathspec filter of checkpoint::run: paths outside the work dir are dropped.  An empty REQUEST means
+   "whatever changed" (whole work tree); a non-empty request of which nothing is left means "nothing here" *)
+Inductive scope := ScopeAll | ScopeNone | ScopeFiles (l : list rawpath).
 
 Record pass := mkPass { p_repo : repo; p_scope : scope; p_failed : bool }.
 
@@ -656,7 +697,10 @@ Definition scope_of (E : env) (r : repo) (files : option (list rawpath)) : scope
   match files with
   | None => ScopeAll
   | Some l => match filter (keeps E r) l with
-              | [] => ScopeAll
+              | [] => match l with
+                      | [] => ScopeAll
+                      | _ :: _ => if foreign_request_scans_all then ScopeAll else ScopeNone
+                      end
               | k => ScopeFiles k
               end
   end.
@@ -718,6 +762,14 @@ Definition decode_preset (E : env) (p : preset) (h : hook) : dres run :=
 Definition files_raw (base : rawpath) (fl : option (list str)) : option (list rawpath) :=
   match fl with Some l => Some (map (absolutize base) l) | None => None end.
 
+(* a relative path needs a base; the base is unknown when the process working directory is gone *)
+Definition absolutize_opt (base : option rawpath) (s : str) : option rawpath :=
+  if is_absolute s then Some (map seg_of_piece (pieces s))
+  else match base with
+       | Some b => Some (b ++ map seg_of_piece (pieces s))
+       | None => None
+       end.
+
 Definition passes_of_groups (E : env) (g : list (repo * list rawpath)) : list pass :=
   map (fun rf => run_pass E (fst rf) (Some (snd rf))) (filter (fun rf => e_allowed E (fst rf)) g).
 
@@ -729,37 +781,64 @@ Definition primary_mode (E : env) (p : repo) (fl : option (list str)) : outcome 
   let cross := passes_of_groups E (group_files (find_for_file E None) externals) in
   Exit (if p_failed first then exit_local_failed else exit_main_after_git_ai) (first :: cross).
 
-(* `needs_file_based_repo_detection` *)
-Definition file_based_mode (E : env) (base : rawpath) (fl : option (list str)) : outcome :=
+(* `needs_file_based_repo_detection`; an unresolvable relative path finds no repository (orphan) *)
+Definition file_based_mode (E : env) (base : option rawpath) (fl : option (list str)) : outcome :=
   match fl with
   | None => Exit exit_no_repo_no_files []
   | Some [] => Exit exit_no_repo_no_files []
   | Some l =>
-      let files := map (absolutize base) l in
-      match group_files (find_for_file E (Some base)) files with
+      let files := flat_map (fun s => match absolutize_opt base s with Some f => [f] | None => [] end) l in
+      match group_files (find_for_file E base) files with
       | [] => Exit exit_no_repo_for_files []
       | g => Exit exit_main_after_git_ai (passes_of_groups E g)
       end
   end.
 
-Definition route (E : env) (cwd : path) (overrides : bool) (rn : option run) : outcome :=
-  let cwd_raw := raw_of_path cwd in
+Definition route (E : env) (cwd : option path) (overrides : bool) (rn : option run) : outcome :=
+  let cwd_raw := match cwd with Some c => Some (raw_of_path c) | None => None end in
   let rwd := match rn with Some r => rn_rwd r | None => None end in
   let fl := match rn with Some r => rn_files r | None => None end in
-  (* repository_working_dir: the process cwd unless the preset arm overwrote it *)
+  (* repository_working_dir: the process cwd (empty when it is gone) unless the preset arm overwrote it *)
   let base := match rwd with
-              | Some w => if overrides then absolutize cwd_raw w else cwd_raw
+              | Some w => if overrides then absolutize_opt cwd_raw w else cwd_raw
               | None => cwd_raw
               end in
   (* final_working_dir *)
-  let final := match rwd with Some w => absolutize cwd_raw w | None => cwd_raw end in
-  let found := match e_stat E final with
-               | IsDir q => discover (e_layout E) q
-               | _ => None
+  let final := match rwd with Some w => absolutize_opt cwd_raw w | None => cwd_raw end in
+  let found := match final with
+               | Some fr => match e_stat E fr with
+                            | IsDir q => discover (e_layout E) q
+                            | _ => None
+                            end
+               | None => None
                end in
   match found with
   | Some p => if e_allowed E p then primary_mode E p fl else Exit exit_repo_excluded []
   | None => file_based_mode E base fl
+  end.
+
+Definition dispatch (E : env) (cwd : option path) (p : preset) (h : hook) : outcome :=
+  match h with
+  | HMissingValue => Exit exit_hook_missing_value []
+  | HStdinReadErr => Exit exit_stdin_read_err []
+  | HStdinEmpty => Exit exit_stdin_empty []
+  | HEmptyValue => Exit exit_hook_empty []
+  | _ =>
+    match preset_name p with
+    | None => route E cwd false None
+    | Some n =>
+        match preset_entry n preset_table with
+        | None => route E cwd false None                       (* `_ => {}` *)
+        | Some (overrides, err_exit) =>
+            match p with
+            | PMockAi => route E cwd false (Some (mkRun AiAgent None None None))
+            | _ => match decode_preset E p h with
+                   | DOk rn => route E cwd overrides (Some rn)
+                   | DErr _ => Exit err_exit []
+                   end
+            end
+        end
+    end
   end.
 
 Definition handle_checkpoint (E : env) (p : preset) (h : hook) : outcome :=
@@ -767,30 +846,8 @@ Definition handle_checkpoint (E : env) (p : preset) (h : hook) : outcome :=
   | HArgvNotUtf8 => Exit exit_clap_usage []
   | _ =>
     match e_cwd E with
-    | None => if cwd_unwrap_panics then Panicked else Exit exit_main_after_git_ai []
-    | Some cwd =>
-      match h with
-      | HMissingValue => Exit exit_hook_missing_value []
-      | HStdinReadErr => Exit exit_stdin_read_err []
-      | HStdinEmpty => Exit exit_stdin_empty []
-      | HEmptyValue => Exit exit_hook_empty []
-      | _ =>
-        match preset_name p with
-        | None => route E cwd false None
-        | Some n =>
-            match preset_entry n preset_table with
-            | None => route E cwd false None                       (* `_ => {}` *)
-            | Some (overrides, err_exit) =>
-                match p with
-                | PMockAi => route E cwd false (Some (mkRun AiAgent None None None))
-                | _ => match decode_preset E p h with
-                       | DOk rn => route E cwd overrides (Some rn)
-                       | DErr _ => Exit err_exit []
-                       end
-                end
-            end
-        end
-      end
+    | None => if cwd_unwrap_panics then Panicked else dispatch E None p h
+    | Some cwd => dispatch E (Some cwd) p h
     end
   end.
 
@@ -802,6 +859,7 @@ Definition pass_records (E : env) (p : pass) : list (repo * path) :=
   if p_failed p then [] else
   match p_scope p with
   | ScopeAll => []
+  | ScopeNone => []
   | ScopeFiles l =>
       flat_map (fun f => let q := resolve E f in
                          if git_accepts (e_layout E) (p_repo p) q then [(p_repo p, q)] else []) l
